@@ -14,6 +14,8 @@ pub const ALL: &[(&str, H)] = &[
     ("h_batch::verify_pins_public_input_count", crate::h_batch::verify_pins_public_input_count),
     ("h_zkir::into_bytes_offcircuit_native", crate::h_zkir::into_bytes_offcircuit_native),
     ("h_zkir::into_bytes_incircuit_biguint", crate::h_zkir::into_bytes_incircuit_biguint),
+    ("h_params::params_read_allocation_bounded", crate::h_params::params_read_allocation_bounded),
+    ("h_params::params_read_shift", crate::h_params::params_read_shift),
 ];
 pub fn lookup(name: &str) -> Option<H> {
     ALL.iter().chain(crate::h_zkir::ARITY_HARNESSES.iter()).find(|(n, _)| *n == name).map(|(_, f)| *f)
